@@ -11,6 +11,8 @@ def vkey(v):
     "Violation class used for grouping, minimisation and replay verification"
     parts = v['subkind'].split(':')
     return (v['property'], v['oracle'], ':'.join(parts[:2]) if v['oracle'] == 'result' else parts[0])
+    # e.g. ('C08', 'result', 'history-changes-result:markup'), ('C08', 'result', 'history-changes-callback-view:markup'),
+    #      ('C08', 'leak', 'containers'), ('C13', 'editor-view', 'line')
 
 
 def vkey_str(key):
